@@ -76,7 +76,7 @@ def run(ctx):
         ctx.judge('R1', 'outline_region:argument-sets', facts=facts)
     # the symbol sets come from the region's dataflow properties
     src = ast.unparse(f.node)
-    ok = 'for s in region.uses_symbols' in src and 'for s in region.defines_symbols' in src
+    ok = X.has(src, 'for s in region.uses_symbols') and X.has(src, 'for s in region.defines_symbols')
     (ctx.judge('R1', 'sets taken from region.uses_symbols / defines_symbols') if ok else
      ctx.violation('R1', 'outline_region:dataflow-source', f.where, 'used/defined sets are not taken from the region node'))
     # ---- R2
@@ -98,10 +98,10 @@ def run(ctx):
     ok = 'mapper[region]' in s2 or 'region: call' in s2 or '[region] = call' in s2
     (ctx.judge('R3', 'region replaced by the call') if ok else
      ctx.violation('R3', 'outline_pragma_regions:mapping', opr.where, 'the generated call is not mapped onto the outlined region'))
-    ok = 'call_arguments = tuple((call_arg_map[a.name] for a in region_routine_arguments))' in src
+    ok = X.has(src, 'call_arguments = tuple((call_arg_map[a.name] for a in region_routine_arguments))')
     (ctx.judge('R3', 'call arguments follow dummy order') if ok else
      ctx.violation('R3', 'outline_region:argument-order', f.where, 'call arguments are not built in the order of the new routine\'s dummies'))
-    ok = 'region_routine.arguments = region_routine_arguments' in src
+    ok = X.has(src, 'region_routine.arguments = region_routine_arguments')
     (ctx.judge('R3', 'dummy list set from the same sequence') if ok else
      ctx.violation('R3', 'outline_region:dummies', f.where, 'new routine\'s dummy list is not the sequence used for the call'))
 
